@@ -101,7 +101,7 @@ fn weights(p: Profile, rng: &mut Rng) -> Vec<(K, u32)> {
             (LoadW, 10), (StoreW, 8), (SwapW, 8), (CasW, 14), (CasTagW, 5), (Flush, 1),
         ],
         Profile::Bulk => vec![
-            (Pin, 5), (Unpin, 4), (Flush, 2), (PanicCs, 2), (New, 3), (NewMany, 8), (NewIter, 6), (IterOpen, 5), (IterNext, 5), (IterClose, 5), (WeakMany, 8), (Clone, 2), (DropRc, 10), (Finalize, 3), (Downgrade, 2), (DropW, 6), (Upgrade, 4),
+            (Pin, 5), (Unpin, 4), (Flush, 2), (PanicCs, 2), (New, 3), (NewMany, 8), (NewIter, 6), (IterOpen, 5), (IterNext, 5), (IterClose, 5), (WeakMany, 8), (Clone, 2), (DropRc, 10), (Finalize, 3), (Downgrade, 2), (WTag, 2), (CloneW, 1), (DropW, 6), (Upgrade, 4),
             (Load, 3), (Store, 5), (Swap, 3), (DerefRc, 2), (StoreW, 2),
         ],
         Profile::Ebr => vec![
@@ -638,6 +638,7 @@ pub fn generate(prop: &str, family: &str, seed: u64) -> RunDesc {
         "dir-t13" => crate::dir::t13(prop, seed),
         "dir-b" => crate::dir::b(prop, seed),
         "dir-t14" => crate::dir::t14(prop, seed),
+        "dir-t15" => crate::dir::t15(prop, seed),
         "dir-w" => crate::dir::w(prop, seed),
         "dir-c" => crate::dir::c(prop, seed),
         "client" => crate::fam_client::gen(prop, seed),
